@@ -1296,7 +1296,7 @@ def run(ctx):
                "rows (null clustering key) and counters through the model API are not generated here (C35 drives those flows)")
     rng = ctx.rng
     n_cases = ctx.scale(16000, 700000)
-    budget = 35 if ctx.quick else 330
+    budget = 35 if ctx.quick else 270
     done = 0
     with CqeSession("c37", None, seed=ctx.seed) as h:
         from cassandra.cqlengine import columns as C, models, query as Q, statements as ST, functions as F, operators as OPS
